@@ -154,6 +154,7 @@ def handle : List String → String
     match natList flags with
     | some fs => showNatList ((Phrase.compile (Phrase.analyse (fun w => w != 0) fs)).map (·.1))
     | none => "bad-op"
+  | ["printl", lead, occ, w, k, items] => C16Chars.handlePrintList lead occ w k items
   | ["parse", h] => C16Chars.handleParse h
   | ["parsel", h] => C16Chars.handleParseLenient h
   | ["parse2", h] => C16Chars.handleParseBoth h
